@@ -169,12 +169,18 @@ def _leaf_tree(draw, e, rsp, force=None):
             'params': e.draw_params(draw, rsp, force)}
 
 
+CHAIN_RULES = ('argscale', 'leftscale', 'translated', 'quadpert', 'conj')
+
+
 @st.composite
-def _wrap(draw, fd, e, rsp, mode, exp_type, el_ok):
-    """One rule applied to the tree ``fd`` (construct, never filter)."""
+def _wrap(draw, fd, e, rsp, mode, exp_type, el_ok, chain=None):
+    """One rule applied to the tree ``fd`` (construct, never filter).
+    ``chain``: apply this rule, with generic (non-unit, non-zero)
+    parameters - used to build consecutive identical rules such as
+    ``(f * a) * b`` literally."""
     n = rsp.size
     rules = FUNC_RULES if mode == 'functional' else FAC_RULES
-    rule = draw(st.sampled_from(rules))
+    rule = chain or draw(st.sampled_from(rules))
     direct = fd['t'] == 'leaf'
     scal = (st.sampled_from([0.5, 2.0, -1.0, -2.0, -0.5, 1.0])
             if exp_type == 2 else
@@ -188,10 +194,7 @@ def _wrap(draw, fd, e, rsp, mode, exp_type, el_ok):
                                           rsp.parts is not None)))
         if not ok or exp_type:
             rule = 'translated'
-    if rule == 'argscale_el' and not (
-            direct and el_ok and
-            (zoo.space_label(rsp) != 'product' or
-             draw(st.integers(0, 3)) == 0)):
+    if rule == 'argscale_el' and not (direct and el_ok):
         rule = 'argscale'
     if rule == 'compose' and exp_type:
         rule = 'translated'
@@ -199,17 +202,15 @@ def _wrap(draw, fd, e, rsp, mode, exp_type, el_ok):
         return {'t': 'translated', 'f': fd,
                 'y': draw(zoo.vecs(n, scale=1.0))}
     if rule == 'argscale':
-        s = draw(scal)
-        if (direct and e.name in ZERO_SCALE_OK and
-                not _has_rejection(fd) and draw(st.booleans())):
-            s = 0.0
-        if mode == 'functional' and s < 0 and (
-                zoo.is_linear_tree(fd) or zoo.contains_conj(fd)):
-            # linear functionals (also hidden behind explicit conjugates,
-            # e.g. IndicatorZero.convex_conj) turn f * s into s * f, whose
-            # proximal rejects s < 0: the catalogue entry
-            # 'ZeroFunctional*neg' exercises that on purpose
-            s = -s
+        if chain:
+            s = draw(st.sampled_from([0.5, 2.0, -2.0, -0.5] if exp_type
+                                     else [0.5, 2.0, -2.0, 3.0, -0.5, 0.25,
+                                           -1.5]))
+        else:
+            s = draw(scal)
+            if (direct and e.name in ZERO_SCALE_OK and
+                    not _has_rejection(fd) and draw(st.booleans())):
+                s = 0.0
         return {'t': 'argscale', 'f': fd, 's': s}
     if rule == 'argscale_el':
         v = zoo.vec(draw(zoo.vecs(n, positive=True)), n)
@@ -220,15 +221,21 @@ def _wrap(draw, fd, e, rsp, mode, exp_type, el_ok):
     if rule == 'leftscale':
         s = draw(st.sampled_from([0.5, 2.0, 3.0, 0.25, 1.0]) if exp_type
                  else zoo.pos_scalars())
-        k = draw(st.integers(0, 11))
-        if k == 0:
+        k = 5 if chain else draw(st.integers(0, 11))
+        if chain and s == 1.0:
+            s = 2.0
+        if k == 0 and not zoo.contains_conj(fd):
+            # (a negative factor is admissible for linear functionals, see
+            # zoo.expected_rejection; behind a conjugate the linearity flag
+            # of the library is not modelled)
             s = -s
         elif k == 1:
             s = 0.0
         return {'t': 'leftscale', 'f': fd, 's': s}
     if rule == 'quadpert':
-        a = draw(st.sampled_from([0.0, 0.5, 1.0, 3.0, 0.1, 0.0]))
-        if draw(st.integers(0, 11)) == 0:
+        a = draw(st.sampled_from([0.5, 1.0, 3.0, 0.1] if chain else
+                                 [0.0, 0.5, 1.0, 3.0, 0.1, 0.0]))
+        if not chain and draw(st.integers(0, 11)) == 0:
             a = -1.0
         u = (draw(zoo.vecs(n, scale=0.2 if exp_type else 1.0))
              if draw(st.booleans()) else None)
@@ -275,9 +282,14 @@ def _sigma(draw, kinds, rsp, exp_type, nparts=None):
     return {'kind': kind, 'vec': draw(zoo.vecs(rsp.size, positive=True))}
 
 
+def depth_ok_for_chain(fd, e, rsp, site):
+    return not (_has_rejection(fd) or e.callable_only or
+                zoo.known_region(site, rsp))
+
+
 @st.composite
 def _tree_on(draw, e, kind, sizes, wkinds=None, max_depth=3,
-             force_depth=None, force=None, dtype=None):
+             force_depth=None, force=None, dtype=None, chain_rule=None):
     """(space descriptor, tree, mode, admissible sigma kinds).  ``wkinds``
     None = random leaf kind, else the forced kinds of the (first) leaf."""
     lk = wkinds or zoo.LEAF_KINDS_RANDOM
@@ -316,8 +328,19 @@ def _tree_on(draw, e, kind, sizes, wkinds=None, max_depth=3,
         depth = 0
     el_ok = 'element' in e.sigma_kinds
     kinds = list(e.sigma_kinds)
+    # consecutive identical rules on purpose ((f * a) * b, a * (b * f),
+    # f.translated(y).translated(z), ...): the library merges some of these
+    if chain_rule is not None and not exp_type and depth_ok_for_chain(
+            fd, e, rsp, site):
+        depth = max(depth, 2)
+    elif (chain_rule is None and depth >= 2 and mode == 'functional' and
+          draw(st.integers(0, 3)) == 0):
+        chain_rule = draw(st.sampled_from(CHAIN_RULES))
+    else:
+        chain_rule = None
     for i in range(depth):
-        fd = draw(_wrap(fd, e, rsp, mode, exp_type, el_ok))
+        forced = chain_rule if (chain_rule and i < 2) else None
+        fd = draw(_wrap(fd, e, rsp, mode, exp_type, el_ok, chain=forced))
         # element-valued steps survive only the Moreau rule of the factory
         # module (documented there)
         if not (fd['t'] == 'conj' and mode == 'factory' and i == 0):
@@ -338,17 +361,21 @@ def _case(draw, tier, cell=None):
         force = None if cell[3] is None else e.classes[cell[3]]
         sizes = ('tiny', 'small')
         force_depth = 0 if draw(st.integers(0, 2)) else None
+        chain_rule = cell[4] if len(cell) > 4 else None
+        if chain_rule:
+            force_depth = draw(st.sampled_from([2, 2, 3]))
     else:
         e = zoo.BY_NAME[draw(_entry_strategy())]
         kind = draw(st.sampled_from(list(e.kinds)))
         wk = None
         force_depth = None
+        chain_rule = None
     sep = (cell is None and kind in ('T', 'P') and not e.callable_only and
            draw(st.integers(0, 7)) == 0)
     if not sep:
         sd, fd, mode, kinds, exp_type = draw(
             _tree_on(e, kind, sizes, wk, force_depth=force_depth,
-                     force=force))
+                     force=force, chain_rule=chain_rule))
         nparts = None
     else:
         # separable sum of 2-3 (possibly derived) functionals of one mode
@@ -418,6 +445,10 @@ def strategy(tier):
     return _case(tier)
 
 
+CHAIN_BASES = ('L1Norm', 'L2Norm', 'L2NormSquared', 'IndicatorBox', 'Huber',
+               'KullbackLeibler', 'IndicatorLpUnitBall')
+
+
 def _cells():
     """(entry, space kind, leaf weighting | None, parameter class | None)"""
     cells = []
@@ -428,6 +459,9 @@ def _cells():
             if len(e.classes) > 1:
                 for ci in range(len(e.classes)):
                     cells.append((e.name, kind, None, ci))
+    for name in CHAIN_BASES:
+        for rule in CHAIN_RULES:
+            cells.append((name, 'T', None, None, rule))
     return cells
 
 
@@ -697,8 +731,7 @@ def _run_case(desc):
         parts = v.signature.split('|')
         parts[2] = 'rule:{}@{}'.format(zoo.rule_name(fd), desc['mode'])
         if _negative_scaling_of_linear(desc, v):
-            # same root cause as the catalogue entry 'ZeroFunctional*neg'
-            parts[2] = 'ZeroFunctional*neg'
+            parts[2] = 'linear*neg.convex_conj'
         raise Violation('|'.join(parts),
                         '[{}; operands pass on their own] {}'.format(
                             zoo.site_of(fd), v.detail))
@@ -707,13 +740,12 @@ def _run_case(desc):
 def _negative_scaling_of_linear(desc, v):
     """The library itself produced ``s * f`` with s < 0 for a functional it
     flags as linear (f * s, or the conjugate rule (f * s)* = f* * (1/s)) and
-    then refused its proximal (or, one step later, its convex conjugate),
-    although the descriptor contains no negative left multiplication."""
+    then refused its convex conjugate (known for C08: the proximal of such
+    a product is fine), although the descriptor contains no negative left
+    multiplication of a non-linear functional."""
     return ('|crash:ValueError|' in v.signature and
-            ('scaled with a negative value' in v.detail or
-             'scaling with nonpositive values have no convex conjugate'
-             in v.detail) and
-            desc['mode'] == 'functional' and
+            'scaling with nonpositive values have no convex conjugate'
+            in v.detail and desc['mode'] == 'functional' and
             zoo.expected_rejection(desc['func']) is None)
 
 
@@ -856,6 +888,8 @@ def _run_tree(desc):
         strata.append('entry:' + nm)
     for r in _rules(fd):
         strata.append('rule:{}:{}'.format(mode, r))
+    for c in _chains(fd):
+        strata.append('chain:' + c)
     if _is_discr(sd):
         strata.append('discr:' + ('bdry' if _has_bdry(sd) else 'nobdry'))
 
@@ -1147,6 +1181,17 @@ def _rules(fd):
     return [zoo.rule_name(fd)] + _rules(fd['f'])
 
 
+def _chains(fd):
+    """consecutive identical rules along the spine of the tree"""
+    out = []
+    while fd['t'] not in ('leaf', 'sepsum'):
+        inner = fd['f']
+        if inner['t'] == fd['t'] and fd['t'] in CHAIN_RULES:
+            out.append('{0}-{0}'.format(fd['t']))
+        fd = inner
+    return out
+
+
 def _depth(fd):
     if fd['t'] == 'leaf':
         return 0
@@ -1182,4 +1227,5 @@ REQUIRED_STRATA = (
      'discr:bdry', 'discr:nobdry', 'dim:tiny', 'dim:small', 'dim:medium',
      'scipy', 'reduced', 'indicator-clauses', 'rejected:nie',
      'rejected:value', 'call:plain', 'call:inplace', 'call:alias',
-     'dtype:float32', 'dtype:float64', 'lib-value-clause'])
+     'dtype:float32', 'dtype:float64', 'lib-value-clause'] +
+    ['chain:{0}-{0}'.format(r) for r in CHAIN_RULES])
